@@ -66,6 +66,18 @@ func vpModules(digs []int) []bool {
 func VP_EAN() {
 	n := vpConfig("n")
 	code := vpString("c", n)
+	// the input space is split in two by assumption: all bytes are digits / some byte is not
+	if vpConfig("digits") == 1 {
+		for i := 0; i < n; i++ {
+			vpAssume(code[i] >= '0' && code[i] <= '9')
+		}
+	} else {
+		some := false
+		for i := 0; i < n; i++ {
+			some = some || code[i] < '0' || code[i] > '9'
+		}
+		vpAssume(some)
+	}
 	scheme := barcode.ColorScheme16
 	var bc barcode.BarcodeIntCS
 	var err error
@@ -86,7 +98,9 @@ func VP_EAN() {
 	lenOK := n == 7 || n == 8 || n == 12 || n == 13
 	if !lenOK || !allDigits {
 		vpAssert(err != nil, "wrong length or a non-digit is rejected")
-		vpCover("rejected-non-digit", lenOK)
+		if lenOK {
+			vpCover("rejected-non-digit", true)
+		}
 		return
 	}
 	// digits and the GS1 check digit: weights 3,1,3,... from the right-most data digit
